@@ -314,6 +314,38 @@ func c09BodyFrom(ws []*model.Content, nWork int, cuts func(*rfFile) []int) explo
 			}
 		}
 		fullIt := gow.Iterate(bytes.NewReader(f.bytes), gow.NextIntoNil, false, nil, 0, mcap.UsingIndex(false))
+		// a consumer that first asks for the index (which fails on a cut file) and then falls back to the
+		// sequential scan on the same Reader gets what the direct scan gets
+		if cut >= 8 {
+			direct := gow.Iterate(bytes.NewReader(data), gow.NextIntoNil, false, nil, len(fullIt.Triples)+8, mcap.UsingIndex(false))
+			if rd, err := mcap.NewReader(bytes.NewReader(data)); err == nil {
+				_, _ = rd.Info()
+				n, ended := 0, error(nil)
+				func() {
+					defer func() {
+						if p := recover(); p != nil {
+							ended = fmt.Errorf("panic: %s", gow.PanicSite(p))
+						}
+					}()
+					it, err := rd.Messages(mcap.UsingIndex(false))
+					if err != nil {
+						ended = err
+						return
+					}
+					for n <= len(fullIt.Triples)+8 {
+						if _, _, _, err := it.NextInto(nil); err != nil {
+							ended = err
+							break
+						}
+						n++
+					}
+				}()
+				rd.Close()
+				if n != len(direct.Triples) {
+					return vio("C09:scan-after-failed-Info", "after Info() on the same Reader the sequential scan returns %d messages (ended %v); without it %d%s", n, ended, len(direct.Triples), ctxs)
+				}
+			}
+		}
 		for _, seekable := range []bool{true, false} {
 			var rd io.Reader = bytes.NewReader(data)
 			if !seekable {
@@ -471,6 +503,11 @@ func (o *readOutcome) equal(t *readOutcome) bool {
 	if len(o.toks) != len(t.toks) || len(o.triples) != len(t.triples) || o.info != t.info || len(o.meta) != len(t.meta) {
 		return false
 	}
+	for i := range o.meta {
+		if !gow.EqualMetadata(&o.meta[i], &t.meta[i]) {
+			return false
+		}
+	}
 	return tokPrefix(o.toks, t.toks) == "" && triplePrefix(o.triples, t.triples) == "" && (len(o.toks) == 0 || len(o.toks[len(o.toks)-1].Body) == len(t.toks[len(t.toks)-1].Body) && (o.toks[len(o.toks)-1].Att == nil || len(o.toks[len(o.toks)-1].Att.Data) == len(t.toks[len(t.toks)-1].Att.Data)))
 }
 
@@ -489,7 +526,8 @@ func c15Workloads(nWork int) []*model.Content {
 	if nWork < len(ws) {
 		ws = ws[:nWork]
 	}
-	return append(ws, model.Fixed(model.Headers[0], model.Chn(model.C0), model.Msg(0, 10, 3, 0), model.Msg(0, 50, 3, 0), model.Msg(0, 30, 3, 0), model.Msg(0, 40, 3, 0), model.Msg(0, 20, 40, 0)))
+	// (three metadata records back to back, for readers that fetch them through the index)
+	return append(ws, model.Fixed(model.Headers[0], model.Chn(model.C0), model.Msg(0, 10, 3, 0), model.Msg(0, 50, 3, 0), model.Met(model.D3), model.Met(model.D1), model.Met(model.D3), model.Msg(0, 30, 3, 0), model.Msg(0, 40, 3, 0), model.Msg(0, 20, 40, 0)))
 }
 
 func c15Body(nWork int, bound int) explore.Body {
